@@ -65,7 +65,70 @@ def enumerate_block_paths(body, start, stop=(), cut_back_edges=True, limit=MAX_P
     return out
 
 
-def summarize(body, blocks, end, env0=None, named_only=True):
+def test_root(body, bi):
+    """(root local, negated) of a boolean switch at the end of block bi: the local the tested temporary is a plain copy of"""
+    t = body.blocks[bi]['t']
+    if 'switch' not in t or t.get('sty') != 'bool':
+        return None
+    pl = op_place(t['switch'])
+    if pl is None or pl['p']:
+        return None
+    l, neg = pl['l'], False
+    same_block = True
+    for _ in range(8):
+        sd = body.single_def(l)
+        if sd is None or sd[2] != 'assign' or l <= body.arg_count:
+            break
+        rv = sd[3]['rv']
+        if 'use' in rv:
+            q = op_place(rv['use'])
+        elif rv.get('un') == 'Not':
+            q = op_place(rv['x'])
+        else:
+            break
+        if q is None or q['p']:
+            break
+        same_block = same_block and sd[0] == bi
+        l = q['l']
+        if rv.get('un') == 'Not':
+            neg = not neg
+    # a copy made in an earlier block denotes the root's value at that time: only safe if the root never changes afterwards
+    if not same_block and len(body.defs.get(l, [])) > 1:
+        return None
+    return l, neg
+
+
+def repeats_consistently(body, blocks, end=None):
+    """False if the block path tests the same boolean local twice, with no assignment to it in between, and takes different sides
+    (`if a || b { .. if a { .. } .. }`): such a path cannot be executed."""
+    last = {}     # root local -> (position, truth)
+    n = len(blocks)
+    for i, bi in enumerate(blocks):
+        # assignments in this block kill what is known about the locals they define
+        for l in list(last):
+            if any(d[0] == bi for d in body.defs.get(l, [])):
+                del last[l]
+        nxt = blocks[i + 1] if i + 1 < n else (end[1] if end and end[0] in ('back', 'stop') else None)
+        if nxt is None:
+            continue
+        tr = test_root(body, bi)
+        if tr is None:
+            continue
+        labs = [lab for lab, tgt in switch_edges(body, bi) if tgt == nxt]
+        if len(labs) != 1:
+            continue
+        truth = bool_truth(body, bi, labs[0])
+        if truth is None:
+            continue
+        l, neg = tr
+        truth = (not truth) if neg else truth
+        if l in last and last[l] != truth:
+            return False
+        last[l] = truth
+    return True
+
+
+def summarize(body, blocks, end, env0=None, named_only=True, mk=False):
     p = Path()
     p.blocks = blocks
     p.end = end
@@ -80,6 +143,10 @@ def summarize(body, blocks, end, env0=None, named_only=True):
             if 'assign' in st:
                 pl = st['assign']
                 val = ev.rvalue(st['rv'])
+                if mk and 'aggregate' in st['rv'] and isinstance(st['rv']['aggregate'], dict) and st['rv']['aggregate'].get('variant'):
+                    # construction of an enum value: its operands as they are on this path
+                    p.events.append(('mk', st['rv']['aggregate'].get('adt'), st['rv']['aggregate']['variant'],
+                                     tuple(ev.operand(o) for o in st['rv']['ops']), bi))
                 if not pl['p']:
                     ev.env[pl['l']] = val
                     if body.locals[pl['l']].get('name') or pl['l'] == 0:
